@@ -5,6 +5,7 @@ import (
 	"fmt"
 	"os"
 	"path/filepath"
+	"time"
 
 	"mossverif/eng"
 	"mossverif/run"
@@ -76,6 +77,7 @@ func runFaultRounds(p *eng.Program, faults []eng.Fault, scratch string, idx int)
 	fs := eng.NewFS()
 	fs.KeepData = true
 	fs.Faults = faults
+	fs.SlowSiblings = 15 * time.Millisecond
 	fs.Activate()
 	defer eng.DeactivateFS()
 	r := eng.NewRunner(p, c06Oracles, dir)
